@@ -200,7 +200,7 @@ func c59(c *Ctx) {
 		why := "no appended byte of the form (len >> 8*(n-i-1)) & 0xff under i < n"
 		cnt := counterByTerm(wfn)
 		for _, in := range Calls("builtin:append").F(c.P, wfn) {
-			es, isVar := VarArgElems(in.(*ssa.Call).Call.Args[1])
+			es, isVar := VarArgElems(BaselineArgs(&in.(*ssa.Call).Call)[1])
 			if !isVar || len(es) != 1 {
 				continue
 			}
@@ -338,17 +338,17 @@ func c59(c *Ctx) {
 	c.Has(R, Stores(hdr+".Fin").Where("= (b0>>7)&1 != 0", func(in ssa.Instruction) bool { return shape(in.(*ssa.Store).Val) == "(x>>7)&1!=0" }))
 	c.Has(R, Stores(hdr+".OpCode").Where("= b0 & 0x0f", func(in ssa.Instruction) bool { return shape(in.(*ssa.Store).Val) == "x&15" }))
 	c.Has(R, Calls("io.LimitReader").ArgIs(0, "$r.Reader").Where("limited to header.Length", func(in ssa.Instruction) bool {
-		return LoadedField(StripConv(in.(*ssa.Call).Call.Args[1])) == hdr+".Length"
+		return LoadedField(StripConv(BaselineArgs(&in.(*ssa.Call).Call)[1])) == hdr+".Length"
 	}))
 	{
 		// first header byte of the writer depends on Fin and OpCode; FIN contributes 0x80
 		first := false
 		for _, in := range Calls("builtin:append").F(c.P, wfn) {
 			call := in.(*ssa.Call)
-			if k, isC := call.Call.Args[0].(*ssa.Const); !isC || k.Value != nil {
+			if k, isC := BaselineArgs(&call.Call)[0].(*ssa.Const); !isC || k.Value != nil {
 				continue
 			}
-			if es, ok := VarArgElems(call.Call.Args[1]); ok && len(es) == 1 {
+			if es, ok := VarArgElems(BaselineArgs(&call.Call)[1]); ok && len(es) == 1 {
 				if bo, ok := StripConv(es[0]).(*ssa.BinOp); ok && bo.Op == token.OR && LoadedField(StripConv(bo.Y)) == hdr+".OpCode" {
 					first = true
 				}
@@ -374,7 +374,7 @@ func c59(c *Ctx) {
 
 	// ---- writer: masking and write order ----
 	hdrWrite := Calls(bw).Where("of the header", func(in ssa.Instruction) bool {
-		return DependsOn(in.(*ssa.Call).Call.Args[1], IsCallTo("builtin:append"))
+		return DependsOn(BaselineArgs(&in.(*ssa.Call).Call)[1], IsCallTo("builtin:append"))
 	})
 	plain := Calls(bw).ArgIs(1, "$0")
 	masked := Calls(bw).ArgIs(1, "make(len($0))")
@@ -384,7 +384,7 @@ func c59(c *Ctx) {
 	c.Before(W, hdrWrite, Union(plain, masked))
 	c.Before(W, Union(plain, masked), Calls("(*bufio.Writer).Flush"))
 	c.Has(W, hdrWrite.Where("ending with the masking key", func(in ssa.Instruction) bool {
-		for _, s := range AppendSeqs(in.(*ssa.Call).Call.Args[1]) {
+		for _, s := range AppendSeqs(BaselineArgs(&in.(*ssa.Call).Call)[1]) {
 			if !strings.HasSuffix(s, " ...$r.header.MaskingKey") {
 				return false
 			}
@@ -494,7 +494,7 @@ func c59(c *Ctx) {
 	wp := Calls("(*websocket.hybiFrameHandler).WritePong")
 	c.Guard(H, wp, fmt.Sprintf(".PayloadType($0) == %d", ping))
 	c.Has(H, wp.Where("with b[:n] of the bytes just read", func(in ssa.Instruction) bool {
-		sl, ok := in.(*ssa.Call).Call.Args[1].(*ssa.Slice)
+		sl, ok := BaselineArgs(&in.(*ssa.Call).Call)[1].(*ssa.Slice)
 		if !ok || sl.Low != nil || sl.High == nil {
 			return false
 		}
@@ -502,7 +502,7 @@ func c59(c *Ctx) {
 		if !ok || ex.Index != 0 || !IsCallTo("io.ReadFull")(ex.Tuple) {
 			return false
 		}
-		return ex.Tuple.(*ssa.Call).Call.Args[1] == sl.X
+		return BaselineArgs(&ex.Tuple.(*ssa.Call).Call)[1] == sl.X
 	}))
 	c.BetweenVia(H, Calls("io.ReadFull"), RetOK(), Calls("io.Copy").ArgIs(1, "$0"), false)
 	c.PassThroughIncl(H, c.Edge(fmt.Sprintf(".PayloadType($0) == %d", ping)).Where("after the control payload was read", func(in ssa.Instruction) bool {
